@@ -490,7 +490,18 @@ def iter_to_seq(run, it, node):
 
 
 # ------------------------------------------------------------------ operators
+def _re_flag(v):
+    import re as _re
+    if isinstance(v, Conc) and isinstance(v.obj, tuple) and v.obj[0] == "ext" and v.obj[1].startswith("re."):
+        return int(getattr(_re, v.obj[1][3:]))
+    if isinstance(v, Conc) and isinstance(v.obj, tuple) and v.obj[0] == "flags":
+        return v.obj[1]
+    return None
+
+
 def binop(run, op, a, b, node):
+    if isinstance(op, ast.BitOr) and _re_flag(a) is not None and _re_flag(b) is not None:
+        return Conc(("flags", _re_flag(a) | _re_flag(b)))      # re.DOTALL | re.IGNORECASE
     if isinstance(a, Val):
         h = run.x.reg.stubs.get(("binop", type(op).__name__, a.ty.name))
         if h is not None:
